@@ -280,6 +280,43 @@ fn lib_reset_node_state(situation: u8, n_supplied: usize) {
     std::mem::forget(c);
 }
 
+// ---------------------------------------------------------------------------------------------
+// C07 (message budget): SYN-ACK / ACK never exceed one UDP datagram when the delta respects the budget it is given
+fn lib_syn_budget(digest_members: usize) {
+    unsafe { DIGEST_MEMBERS = digest_members; }
+    let mut c = mk_chitchat(3600, false, false);
+    let reply = c.process_message(ChitchatMessage::Syn { cluster_id: "c".to_string(), digest: Digest::default() });
+    match reply {
+        Some(ChitchatMessage::SynAck { digest, delta }) => {
+            let mtu = unsafe { crate::state::verif_state::LAST_MTU };
+            assert!(mtu >= 100, "C07: the delta budget left by the own digest is below the documented minimum");
+            let msg = ChitchatMessage::SynAck { digest, delta };
+            let n = msg.serialized_len();
+            kani::cover!(n == MAX_UDP_DATAGRAM_PAYLOAD_SIZE, "a SYN-ACK can fill the datagram exactly");
+            assert!(n <= MAX_UDP_DATAGRAM_PAYLOAD_SIZE, "C07: a SYN-ACK whose delta respects its budget does not fit one UDP datagram (65,507 bytes)");
+            std::mem::forget(msg);
+        }
+        _ => assert!(false, "C07: a SYN of the same cluster must be answered with a SYN-ACK"),
+    }
+    std::mem::forget(c);
+}
+/// cut: the own digest is any digest of `DIGEST_MEMBERS` members (its real serialized_len() is used by the budget)
+static mut DIGEST_MEMBERS: usize = 1;
+fn stub_compute_digest(_c: &Chitchat, _sched: &HashSet<&ChitchatId>) -> Digest {
+    let mut d = Digest::default();
+    let n = unsafe { DIGEST_MEMBERS };
+    if n >= 1 { d.node_digests.insert(sid(), NodeDigest { heartbeat: Heartbeat(kani::any()), last_gc_version: kani::any(), max_version: kani::any() }); }
+    if n >= 2 { d.node_digests.insert(xid(), NodeDigest { heartbeat: Heartbeat(kani::any()), last_gc_version: kani::any(), max_version: kani::any() }); }
+    d
+}
+macro_rules! h_lib_contract { ($name:ident, $unw:expr, $body:expr) => {
+    #[kani::proof]
+    #[kani::unwind($unw)]
+    #[kani::stub(crate::listener::Listeners::trigger_event, noop_trigger)]
+    #[kani::stub(crate::state::ClusterState::compute_partial_delta_respecting_mtu, crate::state::verif_state::contract_partial_delta)]
+    #[kani::stub(crate::Chitchat::compute_digest, stub_compute_digest)]
+    fn $name() { $body }
+}}
 macro_rules! h_lib { ($name:ident, $unw:expr, $body:expr) => {
     #[kani::proof]
     #[kani::unwind($unw)]
